@@ -85,7 +85,7 @@ impl Prop for C18 {
     fn plan(&self, tier: Tier) -> Plan {
         let mut p = Plan::new(match tier {
             Tier::Quick => 20000,
-            Tier::Thorough => 60_000,
+            Tier::Thorough => 200_000,
         });
         p.workers = 8;
         p
